@@ -5,6 +5,9 @@ def plan(tier):
     conds = []
     conds += C.t_instr_conds("C07", tier)
     conds += C.t_upd_conds("C07", tier)
+    from vf.driver import Cond
+    conds.append(Cond("vf.h.h_misc", "h_move_deg", case=0, timeout=300, label="H07-move-degenerate-head (street-graph route from a link's end node)", weight=3))
+    conds.append(Cond("vf.h.h_misc", "h_move2", case=0, timeout=300, label="H07-move-two-links", weight=3))
     return {
         "conds": conds,
         "min_classes": 150,
